@@ -117,6 +117,25 @@ def strategy(tier):
     return st.one_of(_seq(), _seq(), _prec(), _ns())
 
 
+def enumerate_cases(tier):
+    """Every flag x config x environment combination for colour (observed on a pty), and every flag x config
+    combination for verbosity and backend: small finite spaces, enumerated completely."""
+    for flag in (None, "--no-color", "--use-color"):
+        for conf in (None, True, False):
+            for env in (None, "1"):
+                yield {"kind": "prec", "backend_flag": None, "backend_conf": "slurm", "verbose_flag": None,
+                       "verbose_conf": None, "color_flag": flag, "color_conf": conf, "color_env": env, "pty": True}
+    levels = (None, "warning", "info", "debug", "error")
+    for vf in levels:
+        for vc in levels:
+            yield {"kind": "prec", "backend_flag": None, "backend_conf": "slurm", "verbose_flag": vf, "verbose_conf": vc,
+                   "color_flag": None, "color_conf": None, "color_env": None, "pty": False}
+    for bf in (None, "slurm", "sge", "lsf"):
+        for bc in ("slurm", "sge", "lsf"):
+            yield {"kind": "prec", "backend_flag": bf, "backend_conf": bc, "verbose_flag": None, "verbose_conf": None,
+                   "color_flag": None, "color_conf": None, "color_env": None, "pty": False}
+
+
 DESC = {"targets": [{"name": "A", "inputs": [], "outputs": ["a"], "spec": "echo A\n", "wd": None},
                     {"name": "B", "inputs": ["a"], "outputs": ["b"], "spec": "echo B\n", "wd": None}], "files": {}}
 
